@@ -412,10 +412,13 @@ def case_env(ctx, inp):
         ctx.branch("env-non-dask-vars")
     for k in names:
         dotted = k[5:].lower().replace("__", ".")
-        later = [k2 for k2 in names if k2 != k and names.index(k2) > names.index(k)
-                 and (k2[5:].lower().replace("__", ".") + ".").startswith(dotted + ".")]
-        earlier_prefix = [k2 for k2 in names if k2 != k and dotted.startswith(k2[5:].lower().replace("__", ".") + ".")]
-        if later or earlier_prefix or (inherit is not None):
+        # only variables whose dotted name neither extends nor is extended by (nor equals) another variable's name:
+        # overlapping names interact through the intermediate dict of collect_env (a later duplicate overwrites the
+        # earlier one *in place*), which the model covers but this simple oracle does not
+        dn = lambda x: x[5:].lower().replace("__", ".")  # noqa: E731
+        overlap = [k2 for k2 in names if k2 != k and ((dn(k2) + ".").startswith(dotted + ".")
+                                                      or (dotted + ".").startswith(dn(k2) + "."))]
+        if overlap or (inherit is not None):
             continue
         if any(_alt(a) == b and a != b for k2 in names for a, b in zip(k2[5:].lower().replace("__", ".").split("."),
                                                                      dotted.split(".")) if k2 != k):
